@@ -17,6 +17,20 @@ here in a fresh worktree before the change was kept (`tools/confirm_seed.sh`,
 the quick checks with the evidence directory redirected, and reverts. "missed before" marks
 the changes that made me strengthen a check.
 
+`tools/reseed.py` re-runs every kept change against the machinery as it is now (a scratch
+worktree of /repo HEAD per change, the check named first in its row, quick tier unless the
+row says thorough) and then replays the first replay file of each detection twice in fresh
+processes, insisting on the same kind@site. The full run after wave 6 (96 changes): 83
+detected again; 8 patches no longer apply to HEAD because a later `fix:` commit rewrote the
+same lines (they were confirmed at the time against the commit they were written for); 3
+blind spots skipped; 2 not detected by the named check any more, for reasons that are
+understood: `c10-b` is no defect at HEAD (the repaired `Bytes` hands the original back, so
+`String` via `Bytes` is correct), and `c14-w2b` is now seen by C13's race detector only
+(§8.3, GOMAXPROCS=1). The replay verification found two defects of the machinery itself
+(replay files of race reports named the wrong case; violations that depend on process
+history did not reproduce), both corrected (§8.3), after which the ten affected files
+reproduce.
+
 | seeded change | property | needs, to manifest | caught by |
 |---|---|---|---|
 """ + "\n".join(rows) + "\n"
